@@ -47,10 +47,9 @@ theorem refs_kids (n : Node) {r : Ref} (h : r ∈ refsList n.kids) : r ∈ n.ref
 
 theorem Loaded.mono {inp : Input} {pre pre' : List Url} {d : Option Url}
     (h : Loaded inp pre d) (hs : ∀ u ∈ pre, u ∈ pre') : Loaded inp pre' d := by
-  rcases h with h | ⟨u, hu, hd⟩ | h
+  rcases h with h | ⟨u, hu, hd⟩
   · exact Or.inl h
-  · exact Or.inr (Or.inl ⟨u, hs u hu, hd⟩)
-  · exact Or.inr (Or.inr h)
+  · exact Or.inr ⟨u, hs u hu, hd⟩
 
 theorem Justified.mono {inp : Input} {pre pre' : List Url} {u : Url}
     (h : Justified inp pre u) (hs : ∀ u ∈ pre, u ∈ pre') : Justified inp pre' u := by
@@ -224,10 +223,7 @@ def LoadedN (inp : Input) (log : List Url) (d : Option Url) : Prop :=
   (d = inp.root ∨ ∃ u ∈ log, d = some u) ∧ d ∈ univ inp
 
 theorem LoadedN.toU {inp : Input} {log : List Url} {d : Option Url} (h : LoadedN inp log d) : LoadedU inp log d := by
-  refine ⟨?_, h.2⟩
-  rcases h.1 with e | e
-  · exact Or.inl e
-  · exact Or.inr (Or.inl e)
+  exact ⟨h.1, h.2⟩
 
 theorem LoadedN.mono {inp : Input} {pre pre' : List Url} {d : Option Url}
     (h : LoadedN inp pre d) (hs : ∀ u ∈ pre, u ∈ pre') : LoadedN inp pre' d := by
@@ -425,7 +421,7 @@ theorem LoadedU.ext {inp : Input} {st st' : St} {d : Option Url} (h : LoadedU in
     LoadedU inp st'.log d := h.mono e
 
 theorem Loaded.here {inp : Input} {log : List Url} {u : Url} (h : u ∈ log) : Loaded inp log (some u) :=
-  Or.inr (Or.inl ⟨u, h, rfl⟩)
+  Or.inr ⟨u, h, rfl⟩
 
 /-! ### the walkers preserve the invariant -/
 
@@ -812,107 +808,14 @@ theorem loadFrom_inv (inp : Input) (fuel : Nat) (st0 : St) (h0 : Inv inp st0) : 
 theorem load_inv (inp : Input) (fuel : Nat) : Inv inp (load inp fuel).1 :=
   loadFrom_inv inp fuel St.init (Inv.init inp)
 
-/-! ### histories: the invariant across the loads of one loader -/
+/-! ### histories: every load of a reused loader is a load of a fresh one -/
 
-/-- the located root's file sits in the store at its location: a later load finds the same content there -/
-def RootStored (inp : Input) : Prop := ∀ u, inp.root = some u → assoc u inp.store = some inp.rootFile
-
-/-- the loads of a history share one file universe -/
-def GoodHist (store : List (Url × File)) (steps : List Input) : Prop :=
-  ∀ inp ∈ steps, inp.store = store ∧ RootStored inp
-
-def refsS (store : List (Url × File)) (u : Url) : List Ref :=
-  match assoc u store with
-  | some f => f.refs
-  | none => []
-
-/-- what the invariant leaves behind for the next load, stated without reference to a particular load -/
-def CarryOK (store : List (Url × File)) (hist : List Url) (st : St) : Prop :=
-  st.log = [] ∧ st.foreign = false ∧
-  ∀ kv ∈ st.marks, ∃ u, kv.2.1.1 = some u ∧ u ∈ hist ∧ u ∈ store.map (·.1) ∧ ∀ r ∈ refsList kv.2.2, r ∈ refsS store u
-
-theorem refsAt_stored {inp : Input} (hs : RootStored inp) (u : Url) : refsAt inp (some u) = refsS inp.store u := by
-  have hd : docAt inp (some u) = assoc u inp.store := by
-    unfold docAt
-    split
-    · next h => rw [hs u h.symm]
-    · rfl
-  unfold refsAt refsS
-  rw [hd]
-  cases assoc u inp.store <;> rfl
-
-theorem CarryOK.init (store : List (Url × File)) : CarryOK store [] St.init := by
-  refine ⟨rfl, rfl, ?_⟩
-  intro kv h; simp [St.init] at h
-
-/-- a load may start from what the earlier loads left behind -/
-theorem CarryOK.start {store : List (Url × File)} {hist : List Url} {st0 : St} {inp : Input}
-    (h : CarryOK store hist st0) (hst : inp.store = store) (hr : RootStored inp) :
-    Inv { inp with known := hist } st0 := by
-  obtain ⟨hlog, hfor, hm⟩ := h
-  have hr' : RootStored { inp with known := hist } := hr
-  refine ⟨?_, ?_, ?_, fun _ => hfor, fun _ => hfor⟩
-  · intro kv hkv
-    obtain ⟨u, hu, huh, huk, hrefs⟩ := hm kv hkv
-    refine ⟨⟨?_, ?_⟩, ?_⟩
-    · rw [hu]; exact Or.inr (Or.inr ⟨u, huh, rfl⟩)
-    · rw [hu]
-      unfold univ
-      simp only [List.mem_cons, List.mem_map]
-      simp only [List.mem_map] at huk
-      obtain ⟨e, he, hek⟩ := huk
-      exact Or.inr ⟨e, by rw [hst]; exact he, by rw [hek]⟩
-    · intro r hrr
-      rw [hu, refsAt_stored hr' u]
-      show r ∈ refsS inp.store u
-      rw [hst]; exact hrefs r hrr
-  · intro _; rw [hlog]; exact AllJust.nil _
-  · intro _ u hu; rw [hlog] at hu; cases hu
-
-/-- and leaves behind what the next one may start from -/
-theorem Inv.carry {store : List (Url × File)} {inp : Input} {st : St}
-    (h : Inv inp st) (hst : inp.store = store) (hr : RootStored inp) :
-    CarryOK store (inp.known ++ loadedBy inp st) (carry st) := by
-  refine ⟨rfl, rfl, ?_⟩
-  intro kv hkv
-  simp only [KinModel.Reads.carry, List.mem_filter, Bool.and_eq_true] at hkv
-  obtain ⟨hmem, _, hsome⟩ := hkv
-  obtain ⟨⟨hl, hu⟩, hk⟩ := h.marks kv hmem
-  cases hv : kv.2.1.1 with
-  | none => rw [hv] at hsome; cases hsome
-  | some u =>
-    rw [hv] at hl hu hk
-    refine ⟨u, rfl, ?_, ?_, ?_⟩
-    · unfold loadedBy
-      rcases hl with e | ⟨x, hx, e⟩ | ⟨x, hx, e⟩
-      · rw [← e]; simp
-      · cases e; simp [hx]
-      · cases e; simp [hx]
-    · unfold univ at hu
-      rcases List.mem_cons.mp hu with e | e
-      · have := assoc_key_mem (hr u e.symm)
-        rw [hst] at this; exact this
-      · simp only [List.mem_map] at e ⊢
-        obtain ⟨x, hx, hxe⟩ := e
-        cases hxe
-        exact ⟨x, by rw [← hst]; exact hx, rfl⟩
-    · intro r hrr
-      have := hk r hrr
-      rw [refsAt_stored hr u, hst] at this
-      exact this
-
-/-- the invariant holds at the end of every load of a history -/
-theorem runH_inv (store : List (Url × File)) (fuel : Nat) : ∀ (steps : List Input) (hist : List Url) (st0 : St),
-    GoodHist store steps → CarryOK store hist st0 → ∀ e ∈ runH steps fuel hist st0, Inv e.inp e.st
-  | [], _, _, _, _, e, he => by simp [runH] at he
-  | inp :: rest, hist, st0, hg, hc, e, he => by
-    obtain ⟨hst, hr⟩ := hg inp List.mem_cons_self
-    have h0 : Inv { inp with known := hist } st0 := hc.start hst hr
-    have h1 := loadFrom_inv { inp with known := hist } fuel st0 h0
-    simp only [runH, List.mem_cons] at he
-    rcases he with e1 | e2
-    · subst e1; exact h1
-    · have hc' := h1.carry (store := store) hst hr
-      exact runH_inv store fuel rest _ _ (fun i hi => hg i (List.mem_cons_of_mem _ hi)) hc' e e2
+/-- `resetVisitedPathItemRefs` leaves nothing of the modelled state: a history is the list of fresh loads -/
+theorem runH_fresh (fuel : Nat) : ∀ (steps : List Input) (st : St),
+    runH steps fuel (carry st) = steps.map (fun inp => ⟨inp, (load inp fuel).1, (load inp fuel).2⟩)
+  | [], _ => rfl
+  | inp :: rest, st => by
+    simp only [runH, List.map_cons]
+    exact congrArg _ (runH_fresh fuel rest _)
 
 end KinModel.Reads
